@@ -1,5 +1,5 @@
 import MlModel.Lemmas.ConfusionSharding
-import MlModel.Model.Agg.ConfusionHeap
+import MlModel.Lemmas.ConfusionHeap
 import MlModel.Lemmas.ConfusionSamplewise
 /-!
 # C11 (classification family) — merge is associative, commutative, has the fresh state as unit and
@@ -82,9 +82,6 @@ example :
 /-! ## Part 2 — aliasing on the cell heap -/
 
 section heap
-
-theorem cell_set_ne (h : Heap) (i j : Nat) (v : Arr Int) (hij : i ≠ j) : Heap.cell (h.set i v) j = Heap.cell h j := by
-  simp [Heap.cell, List.getD_eq_getElem?_getD, List.getElem?_set_ne hij]
 
 /-- **frame**: `result += accumulator` changes no cell outside the receiver's four arrays, and
 allocates nothing -/
